@@ -105,6 +105,17 @@ CHECKS = {
              'compared with a list; set results with Python sets plus the ordering rule. Bounded model checking.',
         note='Trusted: CrossHair/z3 exhaustion, list/set as oracle. Outside: >384 dead intervals, negative slice steps, iterators as operands, larger sets.',
         ref='C11'),
+    'C12': dict(
+        technique='bounded symbolic execution (CrossHair/z3) of the real BufferedSocket/NetstringSocket over a scripted socket and harness clock: '
+                  'stream byte-class pattern and call script solver-chosen, every chunking / recvsize / timeout / clock-jump position run per choice',
+        text='For delimiters ":" , CRLF and the self-overlapping "aa", every stream of <= 3 bytes over {delimiter bytes, other}, every script of 2 '
+             'calls from recv_until (with/without delimiter, maxsize 1..4), recv_size, peek, recv, recv_close with every size 0..4: under every '
+             'composition into chunks, recvsize 1..2, one socket timeout at any recv or one clock jump past the deadline (calls retried after '
+             'Timeout) results and exceptions equal the one-chunk delivery and consumed + getrecvbuffer() + undelivered == stream after every '
+             'call. Send side: every 3-call script of send/sendall/buffer/flush under every partial-send/timeout pattern keeps sent + '
+             'getsendbuffer() == accepted. Netstrings: every pair of payloads <= 2 bytes over {":", ",", digit, other} round-trips under every chunking.',
+        note='Trusted: the scripted socket/clock model, CrossHair/z3 exhaustion. Outside: real sockets, flags, threads, read_ns retried after a mid-message Timeout, longer streams.',
+        ref='C12'),
     'C14': dict(
         technique='bounded symbolic execution (CrossHair/z3 string theory) of args2sh/args2cmd on one symbolic Unicode argument, re-split by '
                   'independent POSIX-shell / MS-CRT reference splitters; integer-list functions over solver-chosen subsets',
